@@ -147,6 +147,36 @@ def one_ws_class(ctx):
             return
 
 
+def eof_trivia(ctx):
+    """what a text may END with: runs of 1..6 `//` comment lines (starting in column 0, indented, empty) with and without a final line break, a block comment, blanks,
+    CR / CRLF, and the same at the very START of the text"""
+    from pyab_experiment.utils.wraper_functions import parse_source
+    base_text = 'def e { splitters: u return "a" weighted 1, "b" weighted 2 }'
+    base = common.canon_ast(common.quiet(lambda: parse_source(base_text))[0])
+    tails = []
+    for k in range(1, 7):
+        for indent in ("", " ", "\t", "  "):
+            for body in ("// c", "//", "// x // y", "//*", "// }"):
+                run = "\n".join(indent + body for _ in range(k))
+                for lead in ("\n", " ", "\n\n", "\r\n"):
+                    for end in ("", "\n", "\r\n", " ", "\n\n"):
+                        tails.append(lead + run + end)
+    tails += ["/* c */", " /* c */", "\n/* a\nb */", "/**/", "/* c */\n// d", "// d\n/* c */", "\r", "\r\n", "\t", "\x0c", " \n ", "\n" * 50, "//", "//\n//", "\n//\n//\n//"]
+    for t in tails:
+        for text, where in ((base_text + t, "end"), (t.lstrip() + ("\n" if "//" in t and not t.endswith("\n") else " ") + base_text, "start")):
+            try:
+                a = common.canon_ast(common.quiet(lambda: parse_source(text))[0])
+            except Exception as ex:  # noqa
+                a = {"e": common.classify_exc(ex)}
+            ctx.count("eof-trivia:" + where)
+            if a != base:
+                ctx.case(("eof-trivia", where, t), True)
+                ctx.violation(f"trivia at the {where} of the text changes the experiment: {text[-80:] if where == 'end' else text[:80]!r} parses to {json.dumps(a)[:120]}",
+                              {"text": text, "where": where, "trivia": t, "impl": a})
+                return
+    ctx.case(("eof-trivia", len(tails)), True)
+
+
 def run_batch(ctx, n, with_model=True):
     from pyab_experiment.utils.wraper_functions import parse_source
     from pyab_experiment.experiment_evaluator import ExperimentEvaluator
@@ -233,6 +263,7 @@ def run(ctx):
     huge_trivia(ctx)
     exact_gaps(ctx)
     one_ws_class(ctx)
+    eof_trivia(ctx)
 
 
 def search(ctx):
